@@ -184,8 +184,11 @@ func wellFormed(r *ruleSpec, bundleGroup string) bool {
 }
 
 func canonRule(group, id string, index int, override bool, start, end []byte, startHex, endHex, role string, count int, cons []string, labels []string, iso string) string {
-	return fmt.Sprintf("%s/%s#%d ov=%v [%x,%x) hex[%s,%s) %s*%d lc=[%s] ll=[%s] iso=%s",
-		group, id, index, override, start, end, startHex, endHex, role, count, strings.Join(cons, ";"), strings.Join(labels, ","), iso)
+	// every client-supplied string is quoted and lists are printed element-wise, so that two
+	// different values never look alike (a label "zone,host" vs the labels "zone","host"); the hex
+	// spelling of the keys is compared case-insensitively (pd decodes both spellings to the same key)
+	return fmt.Sprintf("%q/%q#%d ov=%v [%x,%x) hex[%s,%s) %q*%d lc=[%s] ll=%q iso=%q",
+		group, id, index, override, start, end, strings.ToLower(startHex), strings.ToLower(endHex), role, count, strings.Join(cons, " "), labels, iso)
 }
 
 func (r *ruleSpec) canon() string {
@@ -194,7 +197,7 @@ func (r *ruleSpec) canon() string {
 	}
 	var cons []string
 	for _, c := range r.Cons {
-		cons = append(cons, fmt.Sprintf("%s %s %s", c.Key, c.Op, strings.Join(c.Values, "|")))
+		cons = append(cons, fmt.Sprintf("{%q %q %q}", c.Key, c.Op, c.Values))
 	}
 	return canonRule(r.Group, r.ID, r.Index, r.Override, r.start, r.end, r.StartHex, r.EndHex, r.Role, r.Count, cons, r.Labels, r.Iso)
 }
@@ -348,13 +351,18 @@ func ruleSetProblem(rs []*ruleSpec) string {
 	if len(rs) == 0 {
 		return "no-rule"
 	}
-	leaders, voters := 0, 0
+	leaders, voters := 0, 0 // saturating: counts can be as large as the int range
+	add := func(a *int, n int) {
+		if *a += n; *a < 0 || *a > 1<<40 {
+			*a = 1 << 40
+		}
+	}
 	for _, r := range rs {
 		switch r.Role {
 		case "leader":
-			leaders += r.Count
+			add(&leaders, r.Count)
 		case "voter":
-			voters += r.Count
+			add(&voters, r.Count)
 		}
 	}
 	if leaders > 1 {
